@@ -120,13 +120,26 @@ Case genC12(Choices &c, int tier) {
   GramOpts o; o.ambiguityBias = 20; o.errorPct = 60;
   if (tier) { o.maxT = 4; o.maxN = 5; o.extraRules += 2; }
   GramDef gd;
-  gd.raw = genGrammar(c, o);
+  bool wide = c.chance(12);
+  WideInfo wi;
+  gd.raw = wide ? genWideGrammar(c, o, wi) : genGrammar(c, o);
   gd.strict = c.flip();
   if (!classify(gd.raw, gd.strict).empty() && classify(gd.raw, !gd.strict).empty()) gd.strict = !gd.strict;
   cs.grams.push_back(gd);
   Gram g;
   if (!toGram(gd.raw, g) || !classify(gd.raw, gd.strict).empty()) return cs;
   std::vector<int> ml = minLen(g);
+  if (wide) {
+    // hundreds of symbols: one long input visiting most copies, clean or with a few damaged places
+    cs.par["wide"] = wi.copies;
+    std::vector<int> w = genWideInput(c, g, ml, wi, tier ? 6000 : 3000);
+    int damage = c.chance(40) ? c.range(1, 3) : 0;
+    for (int d = 0; d < damage && !w.empty(); d++) { int pos = c.upto((int)w.size() - 1); if (c.flip()) w.erase(w.begin() + pos); else w[pos] = w[c.upto((int)w.size() - 1)]; }
+    cs.inputs.push_back(toCodes(g, w));
+    cs.par["one"] = c.upto(2) - 1; cs.par["cost"] = c.flip(); cs.par["rec"] = c.chance(60); cs.par["la"] = c.chance(60) ? 2 : c.range(-1, 3); cs.par["match"] = c.range(1, 6);
+    cs.par["freemode"] = c.upto(2);
+    return cs;
+  }
   // noisy inputs: several errors per input, up to 60 tokens (recovery search stress)
   for (int k = 0; k < 2; k++) {
     std::vector<int> w;
@@ -168,6 +181,7 @@ Verdict runC12(const Case &cs) {
     if (!o.errs.empty()) v.labels.insert("syntax-errors:" + std::string(o.errs.size() >= 3 ? ">=3" : "1-2"));
     if (codes.size() >= 20 && o.errs.size() >= 2) v.nontrivial = true;
     if (codes.size() >= 5) v.nontrivial = true;
+    if (cs.P("wide")) v.labels.insert(std::string("wide-grammar:") + (cs.P("wide") > 255 ? ">255-copies" : "<=255-copies") + (cf.la >= 2 ? ",la=2" : ""));
   }
   b->destroy(); delete b;
   if (!abnormal && g_lib.live_blocks != base) { v.fail("library holds " + std::to_string(g_lib.live_blocks - base) + " blocks after yaep_free_grammar"); return v; }
@@ -187,7 +201,9 @@ extern const PropDef g_props_misc[] = {
      20},
     {"C12", genC12, runC12,
      "rapidcheck side of C12 (the libFuzzer side is described in the evidence key `fuzz'): random CFG (60% with `error' rules) x 2 noisy inputs "
-     "of up to 60 tokens assembled from sentences, mutated sentences and random strings x arbitrary flag values x three allocator modes; oracle: "
+     "of up to 60 tokens assembled from sentences, mutated sentences and random strings x arbitrary flag values x three allocator modes; 12% of the "
+     "cases scale a small grammar up to 20-800 renamed copies or bracket pairs (up to ~5000 symbols, dense/offset/sparse codes) with one input "
+     "of up to 3000 (thorough 6000) tokens visiting the copies; oracle: "
      "no sanitizer report, documented return codes only, well-formed tree, no parse_free misuse, bounded recovery search (hook H3 limit), no "
      "memory held afterwards. Non-trivial: input of >= 5 tokens.",
      40},
